@@ -19,7 +19,7 @@ RULE = ('random document recipes (1-3 changes x 1-3 files, optional '
         '>= 2 content sections or a non-UTF-8 effective encoding; distinct = '
         'fingerprint of the whole recipe.')
 FLOOR = {'quick': 2000, 'thorough': 50000}
-REQUIRED_REACH = ['DiffXReader._read_content', 'DiffXWriter._prepare_content']
+REQUIRED_REACH = ['reader.py:', 'writer.py:']
 ASSUMPTIONS = [
     'the oracle serializer (mon/oracle/serializer.py) is a faithful reading '
     'of docs/spec; it was cross-validated against the writer on the '
